@@ -232,7 +232,7 @@ def correspondence(ctx):
     P = _P()
     rng = ctx.rng
     widen = 3 if ctx.widen else 1
-    N = ctx.scale(150, 4000) * widen
+    N = ctx.scale(400, 10000) * widen
     # ------------------------------------------------ constructors: model vs implementation
     cons = []
     for i in range(N):
@@ -329,7 +329,7 @@ def correspondence(ctx):
     # ------------------------------------------------ batches vs element-by-element
     shapes = [(), (5,), (3, 4), (2, 1, 3)]
     whats = ['retarder', 'rotation', 'shape_broadcast', 'vortex', 'mueller', 'pauli']
-    for i in range(ctx.scale(48, 600) * widen):
+    for i in range(ctx.scale(96, 1800) * widen):
         S = shapes[i % len(shapes)]
         what = whats[(i // len(shapes)) % len(whats)]
         if S == () and what in ('retarder', 'rotation', 'shape_broadcast'):
@@ -342,7 +342,7 @@ def correspondence(ctx):
     funcs = list(P.supported_propagation_funcs)
     if sorted(funcs) != sorted(_PROP_ARGS):
         ctx.pred_fail('adapter', {'supported': funcs}, 'supported_propagation_funcs is not the documented five routines')
-    for i in range(ctx.scale(10, 60)):
+    for i in range(ctx.scale(15, 100)):
         fn = sorted(_PROP_ARGS)[i % 5]
         _check(ctx, 'adapter', {'func': fn, 'shape': [[8, 6], [7, 9], [8, 8]][i % 3], 'seed': int(rng.integers(0, 2 ** 31))},
                tag=fn)
